@@ -22,6 +22,15 @@ def c11(work, tier, seed):
                         steps = fs.session(token)[:4] + [{"k": "data", "cls": "valid", "n": 10}]
                         scripts.append({"id": "d%05d" % len(scripts), "origin": "%s/%s/%s" % (point, cause, fl), "cfg": fs.base_cfg(token), "transport": tr,
                                         "tun": dict(fs.H_A, user="user1" if token else "nuser1"), "steps": steps, "point": point, "cause": cause, "inflight": fl})
+    # the client does not read while the host keeps sending (the relay is blocked in its write, holding the writer lock)
+    # and then ends its side without closing the connection the gateway writes on
+    for tr in ("ws", "legacy"):
+        wr = "ws" if tr == "ws" else "in"
+        for cause in ["close-channel", "protocol-error", "unframeable", "shut:" + wr, "fin:" + wr, "rst:" + wr]:
+            for token in ((True, False) if tier == "thorough" else (len(scripts) % 2 == 0,)):
+                steps = fs.session(token)[:4] + [{"k": "data", "cls": "valid", "n": 10}]
+                scripts.append({"id": "d%05d" % len(scripts), "origin": "opened/%s/stalled" % cause, "cfg": fs.base_cfg(token), "transport": tr,
+                                "tun": dict(fs.H_A, user="user1" if token else "nuser1"), "steps": steps, "point": "opened", "cause": cause, "inflight": "stalled"})
     # legacy: the IN request was accepted but the client has not sent its first bytes yet
     for cause in ("fin:in", "rst:in", "fin:out", "rst:out"):
         for token in ((True, False) if tier == "thorough" else (len(scripts) % 2 == 0,)):
